@@ -1081,8 +1081,9 @@ class Engine:
                 if self.emit_step == 1:
                     self._emit_store_data()
                 elif emit_time <= self.global_time:
+                    # one row, however many emit deadlines have passed
+                    self._emit_store_data()
                     while emit_time <= self.global_time:
-                        self._emit_store_data()
                         emit_time += self.emit_step
                         if self.global_time_precision is not None:
                             emit_time = round(emit_time,
